@@ -392,12 +392,13 @@ func vC17RunRaft(c *vC17Case) (obs *vC17Obs, term string, panicked interface{}) 
 	}
 	for _, m := range members {
 		if !vc17WaitCh(rg.peers[m].cl.Ready(), 40*time.Second) {
-			panic("vc17: cluster peer did not become ready")
+			// the rig could not be set up (no election within 40 s on a loaded machine): nothing of the property has been exercised
+			return nil, "setup", nil
 		}
 	}
 	ld := rg.leader(20 * time.Second)
 	if ld < 0 {
-		panic("vc17: no leader")
+		return nil, "setup", nil
 	}
 	for _, p := range c.Pins {
 		if err := rg.peers[ld].rec.Consensus.LogPin(bg, p.toAPI(rg.t0)); err != nil {
